@@ -643,7 +643,8 @@ def gen_all_algos_plan(rng, tier="quick", stateful=False, random_algos=True):
         r = rng.random()
         if r < 0.12 and wk not in ("WeighSpecified", "WeighTarget"):
             st.append({"a": "LimitWeights", "kw": {"limit": rng.choice([0.4, 0.6, 0.8])}})
-        elif r < 0.25:
+        elif r < 0.25 or (wk == "WeighTarget" and r < 0.55):
+            # (dated targets drop names: LimitDeltas then adds limited entries for held names absent from the targets)
             st.append({"a": "LimitDeltas", "kw": {"limit": rng.choice([0.05, 0.2, 0.5])}})
         elif r < 0.32:
             st.append({"a": "ScaleWeights", "args": [rng.choice([0.5, 0.9])]})
